@@ -87,12 +87,18 @@ func (p *poller) addConn(c *Conn) error {
 	} else {
 		p.g.onUDPListen(c)
 	}
-	p.g.connsUnix[fd] = c
 	// The open handler may already have written and left a backlog; its
 	// attempt to set the writing event failed because the fd was not
 	// registered yet, so register it with the writing event here.
 	var err error
 	c.mux.Lock()
+	if c.closed {
+		// closed by the open handler: the descriptor is gone and its
+		// number may already belong to another connection.
+		c.mux.Unlock()
+		return nil
+	}
+	p.g.connsUnix[fd] = c
 	if c.isWAdded {
 		err = p.addReadWrite(fd)
 	} else {
